@@ -91,7 +91,7 @@ def deletions(rnd, lines, quick):
     return [(k, sorted(set(d))) for k, d in out if d]
 
 
-def run(ctx):
+def _run(ctx):
     rnd = ctx.rng
     from propka.parameters import Parameters
     from propka.input import read_parameter_file
@@ -159,6 +159,12 @@ def run(ctx):
         ctx.oblige("correspondence: Lean parser model = real parser on %d truncated files" % len(reqs), not dis, str(dis[:1]))
     else:
         ctx.oblige("correspondence: parser model = real parser", False, "driver not built")
+
+
+def run(ctx):
+    from .. import scoring_common
+    with scoring_common.tie(ctx, "C12's truncated structures"):
+        _run(ctx)
 
 
 def replay(ctx, rep):
